@@ -20,7 +20,7 @@ from vf.lib import buf
 
 RULE = ("fuzz_arith: the first input byte selects one of ten sub-targets, the rest is decoded structurally: field programs (<= 32 instructions over 8 registers, "
         "operands from set_b32_mod/limit, get_bounds(m), raw limbs bounded by a chosen magnitude 1..32, edge constants; every field routine, emitted only when "
-        "its documented magnitude / normalisation precondition holds), scalar programs (both with CHOSEN-RESULT multiplications / squarings / additions: the result is drawn from an edge set around the reduction fold windows and the second operand is solved for with GMP), modinv/jacobi with p, n and arbitrary odd moduli, int128 helpers vs native "
+        "its documented magnitude / normalisation precondition holds), scalar programs (both with CHOSEN-RESULT multiplications / squarings / additions: the result is drawn from an edge set around the reduction fold windows and the second operand is solved for with GMP; and CHOSEN-LIMB-PRODUCT operands: a limb pair (i,j) whose partial product has a chosen high word, for 64/32/52/26-bit limbs), modinv/jacobi with p, n and arbitrary odd moduli, int128 helpers vs native "
         "__int128, hashing (write-chunk lists, HMAC, RFC 6979 generate lengths, tagged init, the 18 module midstates recomputed from their tags, lengths to 2^20), "
         "group programs (all add/double variants with rzr, special pairs P+P, P+(-P), P+inf, equal y / cube-root-of-unity x, z != 1, coordinate magnitudes up to the "
         "documented maxima), ecmult, ecmult_gen after 0..3 re-blindings, ecmult_const(+xonly), ecmult_multi_var with n in 0..320 and scratch in {NULL, tiny, exact "
@@ -77,6 +77,7 @@ FUZZ_TARGETS = [
 FUZZ_MUST_COVER = ["fuzz_arith:" + c for c in (
     "fe_operand_mag_ge16", "fe_raw_limbs", "fe_mul_mag8", "fe_mul_chosen_result", "fe_mul_chosen_quotient", "fe_sqr_chosen_result", "fe_result_in_fold_window",
     "sc_add_overflow", "sc_mul_chosen_result", "sc_mul_chosen_quotient", "sc_sqr_chosen_result", "sc_add_chosen_result", "sc_mul_shift_chosen", "sc_result_in_fold_window",
+    "sc_limbprod_mul", "sc_limbprod_sqr", "fe_limbprod", "limbprod_doubled_high_all_ones",
     "sc_split_lambda", "modinv_custom_modulus", "int128_nontrivial", "h_multi_write", "h_len_gt1000", "h_module_midstate", "h_rfc6979",
     "ge_add_doubling", "ge_add_cancel", "ge_add_degenerate_y", "ge_z_ne_1", "em_ecmult", "em_gen_blinded", "em_const", "em_const_xonly",
     "mm_n_ge88", "mm_ge88_with_scratch", "mm_scratch_null", "mm_scratch_tiny")]
